@@ -1510,6 +1510,19 @@ static void vnaproperty_free(vnaproperty_t *root)
     free((void *)root);
 }
 
+/*
+ * _vnaproperty_delete_all: free the whole tree and set the root to NULL
+ *   @rootptr: address of root property pointer
+ *
+ * Equivalent to vnaproperty_delete(rootptr, ".") except that it makes no
+ * allocation and therefore cannot fail: for use by functions that free.
+ */
+void _vnaproperty_delete_all(vnaproperty_t **rootptr)
+{
+    vnaproperty_free(*rootptr);
+    *rootptr = NULL;
+}
+
 
 /***********************************************************************
  * External API
